@@ -457,6 +457,38 @@ class Guards:
                 for (val, rk) in reach_k:
                     if val not in can and val != "otherwise":
                         out.append("%s is not %s" % (inner, names.get(val, "#" + val)))
+        # x > max(a, b) implies x > a and x > b; x < min(a, b) likewise (and the non-strict forms)
+        more = []
+        for a in out:
+            m_ = re.match(r"^\((Gt|Ge|Lt|Le)\((.*)\)\)$", a)
+            if not m_:
+                continue
+            ps_ = _split_top(m_.group(2))
+            if len(ps_) != 2:
+                continue
+            op_, x_, y_ = m_.group(1), ps_[0], ps_[1]
+            mm_ = re.match(r"^(?:\w+::)*(max|min)\((.*)\)$", y_)
+            if mm_ and ((op_ in ("Gt", "Ge") and mm_.group(1) == "max") or (op_ in ("Lt", "Le") and mm_.group(1) == "min")):
+                for part in _split_top(mm_.group(2)):
+                    more.append("(%s(%s,%s))" % (op_, x_, part))
+        out.extend(more)
+        # a mode test hoisted into a local (`let strict = validation.is_strict(); .. if strict {..}`) is the same
+        # test: name the call it stands for beside the variable
+        extra = []
+        for a in out:
+            m_ = re.match(r"^(!?)\(var:(\w+)\)$", a)
+            if not m_:
+                continue
+            names_ = getattr(self, "_names_by_var", None)
+            if names_ is None:
+                names_ = self._names_by_var = {nm: lo for lo, nm in self.fn.debug_names().items()}
+            lo_ = names_.get(m_.group(2))
+            ds_ = self.prov.defs.get(lo_, []) if lo_ is not None else []
+            if len(ds_) == 1 and self.fn.locals[lo_]["s"] == "bool":
+                e_ = self.prov._def(ds_[0], 0, (lo_,))
+                if re.search(r"::is_strict\(", e_) and "(" in e_ and not e_.startswith("phi("):
+                    extra.extend(canon_bool(e_, m_.group(1) == ""))
+        out.extend(extra)
         memo[node] = sorted(set(out))
         return memo[node]
 
@@ -536,7 +568,13 @@ class Guards:
             return []
         common = None
         for d in defs:
-            if d[1] == "t" or len(d) < 3 or d[2].get("s") != "assign":
+            if d[1] == "t":
+                # the flag takes the result of a call (`a == b` on a non-primitive type, a predicate function)
+                here = set(self.atoms_at(("t", d[0]), depth + 1))
+                here |= set(canon_bool(self.prov._def(d, 1, (l,)), pol))
+                common = here if common is None else (common & here)
+                continue
+            if len(d) < 3 or d[2].get("s") != "assign":
                 return []
             rv = d[2]["rv"]
             node = ("s", d[0], d[1])
